@@ -26,6 +26,7 @@ import (
 	"math/rand"
 	"net/http"
 	"os"
+	"runtime"
 	"sort"
 	"strconv"
 	"strings"
@@ -34,6 +35,7 @@ import (
 	"testing/synctest"
 	"time"
 
+	"github.com/modelcontextprotocol/go-sdk/internal/jsonrpc2"
 	"github.com/modelcontextprotocol/go-sdk/jsonrpc"
 )
 
@@ -101,6 +103,10 @@ type ordRW struct {
 	body    *ordBuf
 	ready   chan struct{}
 	isReady bool
+	// a slow client connection: the first Write whose bytes contain stallOn is held back by onStall
+	stallOn []byte
+	onStall func()
+	stalled bool
 }
 
 func (w *ordRW) Header() http.Header { return w.hdr }
@@ -114,6 +120,15 @@ func (w *ordRW) WriteHeader(code int) {
 }
 func (w *ordRW) Write(p []byte) (int, error) {
 	w.WriteHeader(http.StatusOK)
+	w.mu.Lock()
+	hold := w.stallOn != nil && !w.stalled && bytes.Contains(p, w.stallOn)
+	if hold {
+		w.stalled = true
+	}
+	w.mu.Unlock()
+	if hold && w.onStall != nil {
+		w.onStall()
+	}
 	w.mu.Lock()
 	defer w.mu.Unlock()
 	w.pending = append(w.pending, p...)
@@ -133,7 +148,16 @@ func (w *ordRW) Flush() {
 	}
 }
 
-type ordRT struct{ h http.Handler }
+type ordRT struct {
+	h   http.Handler
+	obs *ordH // when set: remembers the hanging GET (so that the case can cut it) and slows a resumed one down
+}
+
+// ordGet is the client's hanging GET as the in-process transport sees it.
+type ordGet struct {
+	body   *ordBuf
+	cancel context.CancelFunc
+}
 
 func (rt *ordRT) RoundTrip(req *http.Request) (*http.Response, error) {
 	var body []byte
@@ -152,6 +176,16 @@ func (rt *ordRT) RoundTrip(req *http.Request) (*http.Response, error) {
 		sreq.Host = req.URL.Host
 	}
 	w := &ordRW{hdr: http.Header{}, body: newOrdBuf(), ready: make(chan struct{})}
+	if h := rt.obs; h != nil && req.Method == http.MethodGet {
+		h.mu.Lock()
+		h.curGet = &ordGet{w.body, cancel}
+		if req.Header.Get(lastEventIDHeader) != "" && h.stallTag >= 0 && h.c.stall > 0 {
+			// a resumed stream over a slow connection: the frame of the first message sent while the stream was cut takes a while
+			w.stallOn = []byte(fmt.Sprintf(`"vtag":%d}`, h.stallTag))
+			w.onStall = h.holdReplay
+		}
+		h.mu.Unlock()
+	}
 	go func() {
 		defer func() {
 			recover()
@@ -189,6 +223,18 @@ type ordMsg struct {
 	cb   bool // the handler first calls back into the peer on its own context (ListRoots/Ping, ListTools/Ping), then works for d ms
 	b    int  // raw peer: messages with the same b != 0 travel in one POST body (a JSON-RPC batch), in this order
 	rs   int  // raw peer on rw/rwj: the session's reader pauses rs virtual ms after it has read this message
+	to   int  // fan-out cases: the receiving peer
+	of   int  // fan-out cases: the fan-out (1, 2, …) this message is the per-session copy of; 0 = a directed message
+	lat  int  // fan-out cases: virtual ms a sending middleware adds to this message's send path
+	cut  bool // s2c on a streamable server with an event store: before this message is sent the client's hanging GET is cut (the stream is detached: sends are stored only, until the client resumes with Last-Event-ID)
+	rsm  bool // …: this message is sent the instant the resumed GET begins to write the backlog (the frame of the first message sent while detached takes `stall` ms)
+}
+
+// ordFan is one notifying method that addresses several sessions.
+type ordFan struct {
+	g        int
+	meth     string // roots (Client.AddRoots/RemoveRoots) · resupd (Server.ResourceUpdated) · tools/prompts/resources (Server.AddTool/AddPrompt/AddResource: debounced list_changed)
+	detached bool   // the notifying method only arms the debounce timer; the sends happen later on the timer's goroutine
 }
 
 type ordCase struct {
@@ -196,9 +242,43 @@ type ordCase struct {
 	dir  string // c2s · s2c (server goroutine, background context: the session's shared stream) · s2ci (inside a tool handler, request context: the call's own stream)
 	pv   string
 	msgs []ordMsg
+	// fan-out cases (np > 1): ONE Client connected to np servers (dir c2s) or ONE Server with np client sessions (dir s2c)
+	stall int // resume scenario: how long (hundreds of scheduler yields, at most) the first replayed frame is held back on the resumed connection
+	np    int
+	pvs   []string // protocol version per peer
+	sub  []bool   // dir s2c: is peer p subscribed to the resource?
+	fans []ordFan
 }
 
-func (c *ordCase) cfgOp() string { return fmt.Sprintf("cfg tr=%s dir=%s pv=%s", c.tr, c.dir, c.pv) }
+func (c *ordCase) cfgOp() string {
+	if c.np > 1 {
+		sub := ""
+		for _, b := range c.sub {
+			if b {
+				sub += "1"
+			} else {
+				sub += "0"
+			}
+		}
+		if sub != "" && c.dir != "c2s" {
+			sub = " sub=" + sub
+		} else {
+			sub = ""
+		}
+		return fmt.Sprintf("cfg tr=%s dir=%s pv=%s np=%d%s", c.tr, c.dir, strings.Join(c.pvs, ","), c.np, sub)
+	}
+	if c.stall > 0 {
+		return fmt.Sprintf("cfg tr=%s dir=%s pv=%s stall=%d", c.tr, c.dir, c.pv, c.stall)
+	}
+	return fmt.Sprintf("cfg tr=%s dir=%s pv=%s", c.tr, c.dir, c.pv)
+}
+func (f *ordFan) op() string {
+	mode := "sync"
+	if f.detached {
+		mode = "detached"
+	}
+	return fmt.Sprintf("f %d meth=%s mode=%s", f.g, f.meth, mode)
+}
 func (m *ordMsg) op(i int) string {
 	cb := 0
 	if m.cb {
@@ -210,6 +290,24 @@ func (m *ordMsg) op(i int) string {
 	}
 	if m.rs != 0 {
 		s += fmt.Sprintf(" rs=%d", m.rs)
+	}
+	if m.cut {
+		s += " cut=1"
+	}
+	if m.rsm {
+		s += " rsm=1"
+	}
+	return s
+}
+
+// fanOp is the op of a message of a fan-out case.
+func (m *ordMsg) fanOp(i int) string {
+	s := m.op(i) + fmt.Sprintf(" to=%d", m.to)
+	if m.of != 0 {
+		s += fmt.Sprintf(" of=%d", m.of)
+	}
+	if m.lat != 0 {
+		s += fmt.Sprintf(" lat=%d", m.lat)
 	}
 	return s
 }
@@ -233,12 +331,93 @@ type ordH struct {
 	carrier int // id of the carrier call of an s2ci scenario (-1: none)
 	cbres   map[int]string
 	script  func(ctx context.Context, ss *ServerSession)
+	fan     *ordFanState
+	// resume scenario
+	curGet   *ordGet
+	stallTag int
+	resumeCh chan struct{}
+	resumed  bool
+	cutDone  bool
+}
+
+// cutStream cuts the client's hanging GET (a broken connection: the client's read fails, the server's request
+// context ends) after everything sent so far has arrived; message i will be the first one sent while detached.
+func (h *ordH) cutStream(i int) {
+	synctest.Wait()
+	h.mu.Lock()
+	g := h.curGet
+	h.stallTag = i
+	h.cutDone = g != nil
+	h.mu.Unlock()
+	if g != nil {
+		g.body.closeR()
+		g.cancel()
+	}
+	synctest.Wait()
+}
+
+// holdReplay is called by the goroutine that writes the backlog of a resumed stream when it is about to write the
+// frame of the first message sent while the stream was cut.  It lets the script's goroutine send its next message
+// (rsm) and holds the frame back until that message has gone out — or, when its Write is waiting for the replay
+// to end, for `stall` hundred scheduler yields.  (Not a sleep: a goroutine that sleeps while another one waits for
+// a sync.Mutex it holds stops the virtual clock for good.)
+func (h *ordH) holdReplay() {
+	h.mu.Lock()
+	if !h.resumed {
+		h.resumed = true
+		close(h.resumeCh)
+	}
+	tag := -1
+	for i, m := range h.c.msgs {
+		if m.rsm {
+			tag = i
+		}
+	}
+	h.mu.Unlock()
+	for n := 0; n < 100*h.c.stall; n++ {
+		h.mu.Lock()
+		out := false
+		for _, e := range h.evs {
+			if e.id == tag && (e.what == "ret" || e.what == "err" || e.what == "enq" || e.what == "beg") {
+				out = true
+			}
+		}
+		h.mu.Unlock()
+		if out {
+			return
+		}
+		runtime.Gosched()
+	}
+}
+
+// awaitResume parks until the resumed GET begins to write the backlog (or 10 virtual seconds have passed).
+func (h *ordH) awaitResume() {
+	select {
+	case <-h.resumeCh:
+	case <-time.After(10 * time.Second):
+	}
 }
 
 func (h *ordH) log(what string, id int) {
 	h.mu.Lock()
 	h.evs = append(h.evs, ordEv{what, id, time.Since(h.t0).Milliseconds()})
 	h.mu.Unlock()
+}
+
+// ordHookEnq makes the jsonrpc2 connections of the case report every request that enters a handler queue
+// (site A2 of acceptRequest, the instant before it is appended; one reader goroutine per connection, so the
+// reports of one connection are in queue order): event `enq`.  The hook is global: one case at a time.
+func (h *ordH) hookEnq() {
+	jsonrpc2.VerifHook = func(_ *jsonrpc2.Connection, site string, subj any) {
+		if site != "A2" {
+			return
+		}
+		if req, ok := subj.(*jsonrpc2.Request); ok && req != nil {
+			if tag := ordRawTag(req.Params); tag >= 0 && tag < len(h.c.msgs) {
+				h.log("enq", tag)
+			}
+		}
+	}
 }
 
 func ordCtx(id int) context.Context { return context.WithValue(context.Background(), ordTagKey{}, id) }
@@ -276,7 +455,15 @@ func (h *ordH) sendMW(next MethodHandler) MethodHandler {
 	}
 }
 
-func (h *ordH) recvMW(next MethodHandler) MethodHandler {
+func (h *ordH) recvMW(next MethodHandler) MethodHandler { return h.recvMWp(-1)(next) }
+
+// recvMWp is the receiving middleware of peer p (p < 0: the receiver is not bound to a peer): a message
+// addressed to another peer is logged as unknown.
+func (h *ordH) recvMWp(peer int) Middleware {
+	return func(next MethodHandler) MethodHandler { return h.recvMWat(peer, next) }
+}
+
+func (h *ordH) recvMWat(peer int, next MethodHandler) MethodHandler {
 	return func(ctx context.Context, method string, req Request) (Result, error) {
 		tag := -1
 		if p := req.GetParams(); p != nil && !p.isNil() {
@@ -286,6 +473,9 @@ func (h *ordH) recvMW(next MethodHandler) MethodHandler {
 			case int:
 				tag = v
 			}
+		}
+		if peer >= 0 && tag >= 0 && tag < len(h.c.msgs) && h.c.msgs[tag].to != peer {
+			tag = -1
 		}
 		if tag == ordIgnore {
 			return next(ctx, method, req)
@@ -390,6 +580,12 @@ func (h *ordH) runScript(ctx context.Context, dir string, from int, cs *ClientSe
 		m := h.c.msgs[i]
 		if m.dir != dir || i == h.carrier {
 			continue
+		}
+		if m.cut {
+			h.cutStream(i)
+		}
+		if m.rsm {
+			h.awaitResume()
 		}
 		switch m.kind {
 		case 'n', 'c':
@@ -592,6 +788,10 @@ func (r *ordRaw) run(from int) {
 }
 
 func ordRunCase(t *testing.T, out *verifOut, id string, c *ordCase) {
+	if c.np > 1 {
+		ordRunFanCase(t, out, id, c)
+		return
+	}
 	var recs [][3]string
 	recs = append(recs, [3]string{"reset", "ok", "reset"})
 	flushed := false
@@ -607,7 +807,9 @@ func ordRunCase(t *testing.T, out *verifOut, id string, c *ordCase) {
 	}
 	defer flush()
 	synctest.Test(t, func(t *testing.T) {
-		h := &ordH{t0: time.Now(), c: c, carrier: -1, mainTag: 0, cbres: map[int]string{}}
+		h := &ordH{t0: time.Now(), c: c, carrier: -1, mainTag: 0, cbres: map[int]string{}, stallTag: -1, resumeCh: make(chan struct{})}
+		h.hookEnq()
+		defer func() { jsonrpc2.VerifHook = nil }()
 		status := "ok"
 		defer func() {
 			if r := recover(); r != nil {
@@ -669,7 +871,7 @@ func ordRunCase(t *testing.T, out *verifOut, id string, c *ordCase) {
 			ss, ct = s, &IOTransport{Reader: r2, Writer: w1}
 		case "sse":
 			hd := NewSSEHandler(getServer, nil)
-			ct = &SSEClientTransport{Endpoint: url, HTTPClient: &http.Client{Transport: &ordRT{hd}}}
+			ct = &SSEClientTransport{Endpoint: url, HTTPClient: &http.Client{Transport: &ordRT{h: hd}}}
 		case "rw", "rwj":
 			// the application connects a StreamableServerTransport itself and serves HTTP with it (public API)
 			tp := &StreamableServerTransport{SessionID: "verif-raw", jsonResponse: c.tr == "rwj"}
@@ -678,11 +880,11 @@ func ordRunCase(t *testing.T, out *verifOut, id string, c *ordCase) {
 				status = "connect-fail"
 			}
 			ss = s
-			raw = &ordRaw{h: h, hc: &http.Client{Transport: &ordRT{tp}}, url: url}
+			raw = &ordRaw{h: h, hc: &http.Client{Transport: &ordRT{h: tp}}, url: url}
 		case "rh":
 			hd := NewStreamableHTTPHandler(getServer, &StreamableHTTPOptions{})
 			cleanup = append(cleanup, hd.closeAll)
-			raw = &ordRaw{h: h, hc: &http.Client{Transport: &ordRT{hd}}, url: url}
+			raw = &ordRaw{h: h, hc: &http.Client{Transport: &ordRT{h: hd}}, url: url}
 			if c.pv >= protocolVersion20250618 || len(c.msgs)%2 == 0 {
 				raw.pvHdr = c.pv
 			}
@@ -696,7 +898,7 @@ func ordRunCase(t *testing.T, out *verifOut, id string, c *ordCase) {
 			}
 			hd := NewStreamableHTTPHandler(getServer, o)
 			cleanup = append(cleanup, hd.closeAll)
-			ct = &StreamableClientTransport{Endpoint: url, HTTPClient: &http.Client{Transport: &ordRT{hd}}}
+			ct = &StreamableClientTransport{Endpoint: url, HTTPClient: &http.Client{Transport: &ordRT{h: hd, obs: h}}}
 		}
 		var cs *ClientSession
 		if status == "ok" && raw != nil {
@@ -762,6 +964,9 @@ func ordRunCase(t *testing.T, out *verifOut, id string, c *ordCase) {
 			settle := 2 * time.Second // every handler still queued gets the time it needs
 			for _, m := range c.msgs {
 				settle += time.Duration(m.d) * time.Millisecond
+				if m.cut {
+					settle += 5 * time.Second // the client reconnects after 1-2 s
+				}
 			}
 			time.Sleep(settle)
 			synctest.Wait()
@@ -818,7 +1023,7 @@ func ordRunCase(t *testing.T, out *verifOut, id string, c *ordCase) {
 			if v, ok := per[i]["err"]; ok {
 				ret, e = v, "1"
 			}
-			obs := fmt.Sprintf("snd=%s ret=%s err=%s beg=%s fin=%s n=%d", get(i, "snd"), ret, e, get(i, "beg"), get(i, "fin"), cnt[i])
+			obs := fmt.Sprintf("snd=%s ret=%s err=%s beg=%s fin=%s n=%d enq=%s", get(i, "snd"), ret, e, get(i, "beg"), get(i, "fin"), cnt[i], get(i, "enq"))
 			tags := []string{"kind=" + string(m.kind), m.dir + ":" + m.meth, "tr=" + c.tr + "/" + string(m.kind)}
 			if e == "1" {
 				tags = append(tags, "senderr")
@@ -828,6 +1033,9 @@ func ordRunCase(t *testing.T, out *verifOut, id string, c *ordCase) {
 			}
 			if m.cb {
 				tags = append(tags, "callback", h.cbres[i])
+			}
+			if m.b != 0 && m.kind != 'n' {
+				tags = append(tags, "body-call")
 			}
 			if m.b != 0 {
 				n := 0
@@ -840,6 +1048,20 @@ func ordRunCase(t *testing.T, out *verifOut, id string, c *ordCase) {
 			}
 			if m.rs != 0 {
 				tags = append(tags, "readerstall")
+			}
+			if m.cut {
+				if h.cutDone {
+					tags = append(tags, "stream-cut")
+				} else {
+					tags = append(tags, "stream-cut-missed")
+				}
+			}
+			if m.rsm {
+				if h.resumed {
+					tags = append(tags, "sent-during-replay")
+				} else {
+					tags = append(tags, "replay-not-seen")
+				}
 			}
 			if b, s := per[i]["beg"], per[i]["snd"]; b != "" && s != "" && b[strings.Index(b, "@"):] != s[strings.Index(s, "@"):] {
 				tags = append(tags, "waited")
@@ -1028,12 +1250,63 @@ func ordGen(rng *rand.Rand, tr string, maxLen int) *ordCase {
 		}
 		c.msgs = append(c.msgs, m)
 	}
+	if c.dir == "s2c" && (tr == "she" || tr == "shje") && rng.Intn(2) == 0 {
+		// resume scenario (event store): some notifications arrive; the client's hanging GET is cut; the server goroutine
+		// sends 1-4 notifications while the stream is detached (stored only); the client resumes with Last-Event-ID over a
+		// slow connection (the first replayed frame takes `stall` ms) and the same goroutine sends its next message the
+		// instant the replay begins; then 0-2 more messages
+		c.msgs = c.msgs[:2]
+		c.stall = 50 + rng.Intn(150) // hundreds of scheduler yields the first replayed frame is held back at most
+		s2cNote := func() ordMsg {
+			return ordMsg{dir: "s2c", kind: 'n', meth: []string{"log", "prog"}[rng.Intn(2)], d: dur()}
+		}
+		for k := 1 + rng.Intn(2); k > 0; k-- {
+			c.msgs = append(c.msgs, s2cNote())
+		}
+		first := s2cNote()
+		first.cut = true
+		c.msgs = append(c.msgs, first)
+		for k := rng.Intn(4); k > 0; k-- {
+			c.msgs = append(c.msgs, s2cNote())
+		}
+		next := s2cNote()
+		if rng.Intn(10) < 3 {
+			next = ordMsg{dir: "s2c", kind: []byte{'c', 'g'}[rng.Intn(2)], meth: []string{"lroots", "sample", "elicit", "ping"}[rng.Intn(4)], d: dur()}
+		}
+		next.rsm = true
+		c.msgs = append(c.msgs, next)
+		for k := rng.Intn(3); k > 0; k-- {
+			m := s2cNote()
+			m.gap = gap()
+			c.msgs = append(c.msgs, m)
+		}
+	}
 	if !isNew && rng.Intn(4) == 0 {
 		c.msgs[1].cb = true // the server's `initialized` handler calls back, too
 		if c.msgs[1].d == 0 {
 			c.msgs[1].d = 1 + rng.Intn(50)
 		}
 	}
+	return c
+}
+
+// ordBodyCase: handshake, one body of n members (bit k of mask set: member k is a call), then a single
+// notification and a single call.  Handler durations differ so that a re-ordering shows in the handler order too.
+func ordBodyCase(tr string, n, mask, salt int) *ordCase {
+	c := &ordCase{tr: tr, dir: "c2s", pv: []string{protocolVersion20250326, protocolVersion20241105}[salt%2]}
+	c.msgs = append(c.msgs, ordMsg{dir: "c2s", kind: 'i', meth: "initialize", d: 1}, ordMsg{dir: "c2s", kind: 'n', meth: "initialized", d: salt % 3})
+	if salt%4 == 3 {
+		c.msgs = append(c.msgs, ordMsg{dir: "c2s", kind: 'n', meth: "prog", d: 1}) // an odd number of messages: rh sends no version header
+	}
+	calls := []string{"tool", "ping", "ltools", "lres"}
+	for k := 0; k < n; k++ {
+		m := ordMsg{dir: "c2s", kind: 'n', meth: []string{"prog", "roots"}[(k+salt)%2], d: 2 + (k+salt)%4, b: 1}
+		if mask&(1<<k) != 0 {
+			m = ordMsg{dir: "c2s", kind: 'c', meth: calls[(k+salt)%4], d: 1 + (k+salt)%3, b: 1}
+		}
+		c.msgs = append(c.msgs, m)
+	}
+	c.msgs = append(c.msgs, ordMsg{dir: "c2s", kind: 'n', meth: "prog", d: 1}, ordMsg{dir: "c2s", kind: 'c', meth: "tool", d: 1})
 	return c
 }
 
@@ -1057,6 +1330,26 @@ func ordParse(lines []string) (*ordCase, bool) {
 		switch f[0] {
 		case "cfg":
 			c.tr, c.dir, c.pv = kv(f, "tr"), kv(f, "dir"), kv(f, "pv")
+			c.stall, _ = strconv.Atoi(kv(f, "stall"))
+			if np, _ := strconv.Atoi(kv(f, "np")); np > 1 {
+				c.np = np
+				c.pvs = strings.Split(c.pv, ",")
+				for len(c.pvs) < np {
+					c.pvs = append(c.pvs, c.pvs[0])
+				}
+				for _, ch := range kv(f, "sub") {
+					c.sub = append(c.sub, ch == '1')
+				}
+				for len(c.sub) < np {
+					c.sub = append(c.sub, true)
+				}
+			}
+		case "f":
+			if len(f) < 2 {
+				return nil, false
+			}
+			g, _ := strconv.Atoi(f[1])
+			c.fans = append(c.fans, ordFan{g: g, meth: kv(f, "meth"), detached: kv(f, "mode") == "detached"})
 		case "m":
 			d, _ := strconv.Atoi(kv(f, "d"))
 			g, _ := strconv.Atoi(kv(f, "gap"))
@@ -1066,7 +1359,10 @@ func ordParse(lines []string) (*ordCase, bool) {
 			}
 			b, _ := strconv.Atoi(kv(f, "b"))
 			rs, _ := strconv.Atoi(kv(f, "rs"))
-			c.msgs = append(c.msgs, ordMsg{dir: kv(f, "dir"), kind: k[0], meth: kv(f, "meth"), d: d, gap: g, cb: kv(f, "cb") == "1", b: b, rs: rs})
+			to, _ := strconv.Atoi(kv(f, "to"))
+			of, _ := strconv.Atoi(kv(f, "of"))
+			lat, _ := strconv.Atoi(kv(f, "lat"))
+			c.msgs = append(c.msgs, ordMsg{dir: kv(f, "dir"), kind: k[0], meth: kv(f, "meth"), d: d, gap: g, cb: kv(f, "cb") == "1", b: b, rs: rs, to: to, of: of, lat: lat, cut: kv(f, "cut") == "1", rsm: kv(f, "rsm") == "1"})
 		}
 	}
 	return c, c.tr != "" && len(c.msgs) > 0
@@ -1115,14 +1411,31 @@ func TestVerifOrder(t *testing.T) {
 			}
 		}
 	}
+	// exhaustive: a raw streamable peer POSTs ONE batch of every composition of calls and notifications up to four
+	// members (pre-2025-06-18 batching; Mcp-Protocol-Version absent or present on rh), then a notification and a call
+	ci := 0
+	for _, tr := range []string{"rw", "rwj", "rh"} {
+		for n := 1; n <= 4; n++ {
+			for mask := 0; mask < 1<<n; mask++ {
+				ordRunCase(t, out, fmt.Sprintf("x%d", ci), ordBodyCase(tr, n, mask, ci))
+				ci++
+			}
+		}
+	}
 	rng := verifRng(31)
 	n := verifN(4000, 20000)
 	maxLen := 8
 	if verifThorough() {
 		maxLen = 14
 	}
+	frng := verifRng(37)
 	for i := 0; i < n; i++ {
 		tr := ordTransports[i%len(ordTransports)]
 		ordRunCase(t, out, fmt.Sprintf("g%d", i), ordGen(rng, tr, maxLen))
+		if i%3 == 2 {
+			// every third step also a fan-out case: one sender, 2-3 receiving peers
+			k := i / 3
+			ordRunCase(t, out, fmt.Sprintf("f%d", k), ordGenFan(frng, ordFanTransports[k%len(ordFanTransports)], maxLen))
+		}
 	}
 }
